@@ -258,6 +258,8 @@ def threshold_classes(scores, decreasing: bool, exact: bool = True, lo=0.0, hi=N
     for a, b in zip(s, s[1:]):
         cand.append((a + b) / 2)
     cand.append(min(hi, s[-1] + 0.25) if s[-1] < hi else hi)
+    if decreasing:
+        cand.append(lo)  # e.g. ASSD <= 0.0: only perfect instances pass (0.0 is falsy in python)
     if exact:
         cand.extend(s)
     for c in cand:
